@@ -613,6 +613,11 @@ func appInputX(r *ref.SplitMix64, i int) (in []byte, frames []byte, known bool) 
 		s = append(s, gen.RandFrame(r))
 		n := r.Range(13000, 24000)
 		if r.Chance(1, 2) {
+			// exactly a power of two, one less, one more: where a block of other data is
+			// full and the next frame's start byte is the first thing after it
+			n = []int{4095, 4096, 4097, 8191, 8192, 16383, 32767, 32768, 65535, 65536, 65537, 131071}[r.Intn(12)]
+		}
+		if r.Chance(1, 2) {
 			const sentence = "$GNGGA,092751.000,5321.6802,N,00630.3371,W,1,8,1.03,61.7,M,55.3,M,,*75\r\n"
 			txt := make([]byte, n)
 			for j := range txt {
@@ -664,6 +669,52 @@ func appInputX(r *ref.SplitMix64, i int) (in []byte, frames []byte, known bool) 
 				in = append(in, pick()...)
 			default:
 				in = append(in, pick()...)
+			}
+		}
+		return in, frames, true
+	}
+	if i%23 == 14 {
+		// the message types a base station really sends besides observations: antenna and
+		// receiver descriptors with their counted strings (1007, 1008, 1033), text (1029),
+		// ephemerides (1019, 1020, 1042-1046), system parameters (1013), biases (1230),
+		// proprietary ones (4072, 4094) - with bodies that stop at every kind of place
+		types := []int{1007, 1008, 1033, 1029, 1019, 1020, 1042, 1044, 1045, 1046, 1013, 1230, 1012, 1004, 4072, 4094, 1001, 1009}
+		for j := r.Range(3, 10); j > 0; j-- {
+			t := types[r.Intn(len(types))]
+			n := r.Range(2, 70)
+			body := make([]byte, n)
+			switch r.Intn(4) {
+			case 0: // counted strings: a count byte, that many letters, again
+				p := 3 + r.Intn(2)
+				for p < n {
+					cnt := r.Intn(12)
+					body[p] = byte(cnt)
+					p++
+					for q := 0; q < cnt && p < n; q++ {
+						body[p] = "TRM59800.00 SCIS"[q%16]
+						p++
+					}
+					if r.Chance(1, 4) {
+						body = body[:p]
+						break
+					}
+				}
+			case 1:
+				copy(body, r.Bytes(n))
+			case 2:
+				for q := range body {
+					body[q] = 0xff
+				}
+			}
+			if len(body) < 2 {
+				body = append(body, 0, 0)
+			}
+			body[0], body[1] = byte(t>>4), byte(t<<4)|body[1]&0x0f
+			f := ref.Frame(body)
+			in = append(in, f...)
+			frames = append(frames, f...)
+			if r.Chance(1, 3) {
+				in = append(in, '\r', '\n')
 			}
 		}
 		return in, frames, true
@@ -887,12 +938,34 @@ func monC11(c *child.Ctx, replay json.RawMessage) {
 		return
 	}
 	n := c.Share(c.Pick(800, 16000))
+	// lengths of other data whose readable form (as this build's library renders it) is
+	// an exact multiple of 4096 bytes long: output that ends precisely on a block
+	// boundary of a writer that works in blocks
+	var blockLens []int
+	for l := 200; l < 7000; l++ {
+		if m := handler.NewNonRTCM(make([]byte, l)); m != nil && (len(m.String())+1)%4096 == 0 {
+			blockLens = append(blockLens, l)
+		}
+	}
 	for _, app := range []string{"displayrtcm3", "rtcmfilter"} {
 		var cases []appCase
 		for i := 0; i < n/2; i++ {
 			in := appInput(r, i)
 			if len(in) > 20000 && i%23 != 11 {
 				in = in[:20000]
+			}
+			if i%19 == 7 && len(blockLens) > 0 {
+				junk := gen.NoD3(r.Bytes(blockLens[r.Intn(len(blockLens))]))
+				if r.Chance(1, 2) {
+					for j := range junk {
+						junk[j] = "$GPGGA,123519,4807.038,N,01131.000,E*47\r\n"[j%41]
+					}
+				}
+				in = append(append(append([]byte(nil), gen.RandFrame(r).Bytes...), junk...), gen.RandFrame(r).Bytes...)
+				if r.Chance(1, 3) {
+					in = in[:len(in)-len(gen.RandFrame(r).Bytes)%len(in)]
+				}
+				c.Count("inputs_whose_display_ends_on_a_4096_byte_boundary", 1)
 			}
 			mode, us := writerProfile(r)
 			if mode == "block" && len(in) > 1500 {
